@@ -71,8 +71,29 @@ def fk2r(klong, y, x):
     LOG.append(("fk2r", klong is K, y, x)); return 3 * y - x
 
 
+import functools as _ft
+
+
+def _logged(fn):
+    """an ordinary decorator: the wrapper takes *args, the signature is the wrapped function's (functools.wraps)"""
+    @_ft.wraps(fn)
+    def wrapper(*args, **kwargs):
+        return fn(*args, **kwargs)
+    return wrapper
+
+
+@_logged
+def fd2(x, y):
+    LOG.append(("fd2", x, y)); return x - 2 * y
+
+
+@_logged
+def fdk1(klong, x):
+    LOG.append(("fdk1", klong is K, x)); return x + 2
+
+
 TABLE = [("f0", f0, 0), ("f1", f1, 1), ("f2", f2, 2), ("f3", f3, 3), ("fk1", fk1, 1), ("fk2", fk2, 2),
-         ("f2r", f2r, 2), ("f3r", f3r, 3), ("fk2r", fk2r, 2)]
+         ("f2r", f2r, 2), ("f3r", f3r, 3), ("fk2r", fk2r, 2), ("fd2", fd2, 2), ("fdk1", fdk1, 1)]
 
 
 def _clean():
@@ -103,8 +124,9 @@ def callables(a: int, b: int, c: int, fi: int, form: int, redefine: bool) -> boo
         want_log = None; want = None
         py = {"f0": lambda: 100, "f1": lambda x: x + 1, "f2": lambda x, y: x - 2 * y, "f3": lambda x, y, z: x - 2 * y + 5 * z,
               "fk1": lambda x: x + 2, "fk2": lambda x, y: 3 * x - y,
+              "fd2": lambda x, y: x - 2 * y, "fdk1": lambda x: x + 2,
               "f2r": lambda p, q: p - 2 * q, "f3r": lambda p, q, r: p - 2 * q + 5 * r, "fk2r": lambda p, q: 3 * p - q}[name]
-        tag = lambda *v: (name,) + ((True,) if name.startswith("fk") else ()) + tuple(v)
+        tag = lambda *v: (name,) + ((True,) if name.startswith(("fk", "fdk")) else ()) + tuple(v)
         if form == 0:                                                     # direct
             text = "h(" + ";".join("ABC"[:arity]) + ")"
             want = py(*args); want_log = [tag(*args)]
@@ -253,10 +275,10 @@ def wrapper(a: int, b: int, c: int, arity: int, step: int, nargs: int) -> bool:
 def wrapper_history(a: int, b: int, c: int, arity: int, o1: int, o2: int, o3: int, o4: int) -> bool:
     """
     pre: 1 <= arity <= 3 and arity == CFG.get('arity', arity)
-    pre: 0 <= o1 <= 3 and 0 <= o2 <= 3 and 0 <= o3 <= 3 and 0 <= o4 <= 3 and o1 == CFG.get('o1', o1)
+    pre: 0 <= o1 <= 4 and 0 <= o2 <= 4 and 0 <= o3 <= 4 and 0 <= o4 <= 4 and o1 == CFG.get('o1', o1)
     post: _
     """
-    # histories of  0 call | 1 define body A | 2 define body B | 3 delete the name  after the wrapper was obtained: every call
+    # histories of  0 call | 1 define body A | 2 define body B | 3 delete the name | 4 define a body of ANOTHER arity  after the wrapper was obtained: every call
     # through the wrapper runs the CURRENT definition of the name (the one it was created from while the name is unbound) and
     # agrees with the Klong call whenever the name is bound
     enter()
@@ -268,22 +290,27 @@ def wrapper_history(a: int, b: int, c: int, arity: int, o1: int, o2: int, o3: in
         w = K['fn']
         orig = A_[arity][1]; bound = orig
         args = [a, b, c][:arity]
+        other = 1 if arity > 1 else 2                 # the arity of the redefinition made by op 4
+        cur_arity = arity
         K['A'] = a; K['B'] = b; K['C'] = c
         for o in [o1, o2, o3, o4][:CFG.get('steps', 4)]:
             if o == 1:
-                K('fn::' + A_[arity][0]); bound = A_[arity][1]
+                K('fn::' + A_[arity][0]); bound = A_[arity][1]; cur_arity = arity
             elif o == 2:
-                K('fn::' + B_[arity][0]); bound = B_[arity][1]
+                K('fn::' + B_[arity][0]); bound = B_[arity][1]; cur_arity = arity
+            elif o == 4:
+                K('fn::' + B_[other][0]); bound = B_[other][1]; cur_arity = other
             elif o == 3:
                 if bound is None:
                     continue
-                del K['fn']; bound = None
+                del K['fn']; bound = None; cur_arity = arity
             else:
-                got = w(*args)
-                want = (bound or orig)(*args)
+                cargs = [a, b, c][:cur_arity]
+                got = w(*cargs)
+                want = (bound or orig)(*cargs)
                 if W.canon(got) != W.canon(want):
                     return verdict(False)
-                if bound is not None and W.canon(K("fn(" + ";".join("ABC"[:arity]) + ")")) != W.canon(got):
+                if bound is not None and W.canon(K("fn(" + ";".join("ABC"[:cur_arity]) + ")")) != W.canon(got):
                     return verdict(False)
         return verdict(True)
     except Exception as e:
@@ -369,6 +396,6 @@ def obligations(tier):
     obs += [{"name": "data values", "fn": "data", "cfg": {}, "timeout": T_},
             {"name": "function wrapper", "fn": "wrapper", "cfg": {}, "timeout": T_},
             ] + [{"name": "function wrapper: call / redefine / delete histories, arity %d, first op %d" % (ar, o1), "fn": "wrapper_history",
-                  "cfg": {"steps": 4, "arity": ar, "o1": o1}, "timeout": T_} for ar in (1, 2, 3) for o1 in range(4)] + [
+                  "cfg": {"steps": 4, "arity": ar, "o1": o1}, "timeout": T_} for ar in (1, 2, 3) for o1 in range(5)] + [
             {"name": "imported signatures", "fn": "imported", "cfg": {}, "timeout": T_}]
     return obs
